@@ -1,6 +1,7 @@
 //! simkit — deterministic simulation with fault injection for log4rs.
 //! See /verif/DESIGN.md.
 
+pub mod calendar;
 pub mod clock;
 pub mod driver;
 pub mod frame;
